@@ -62,6 +62,7 @@ package ast
 //@ spec nodeSem(node Int, row Str) Bool
 
 //@ func (BoolNode).EvalBool
+//@   requires s != nil
 //@   pure
 //@   ensures result == nodeSem(self, symRow[s])
 
@@ -75,3 +76,9 @@ package ast
 
 //@ func NewUnknownSymbolError
 //@   pure
+
+// ---------------------------------------------------------------------------
+// Panic-freedom sweep (C10): every function of these files gets the obligations
+// nil / idx / assert / div / unreachable, with the thin contracts below.
+// ---------------------------------------------------------------------------
+//@ sweep C10 node_expr.go node_convert.go node_set.go node_arrays.go node_symbol.go node_query.go node_const.go cursors.go helper.go bolt_listener.go node.go visitor.go
